@@ -7,7 +7,8 @@ from harness.core import llit, qlit, zlit
 
 IMPORTS = "From Coq Require Import ZArith QArith List.\nImport ListNotations.\nFrom Elex Require Import Base.Loss Model.Conformal Model.Compare.\n"
 
-RULE = ("(a) NonparametricElectionModel._compute_population_correction called directly on generated calibration sets (2-60 units; ties, negative scores, "
+RULE = ("(c) NonparametricElectionModel called directly on unit frames with shuffled / gapped row labels: every interval must equal the one obtained with labels 0..n-1; "
+        "(a) NonparametricElectionModel._compute_population_correction called directly on generated calibration sets (2-60 units; ties, negative scores, "
         "one dominant weight, equal weights, levels near 0 and near 1): the returned correction must be the model's, exactly (it is one of the input "
         "scores); (b) nonparametric get_estimates runs (robust on / off, outlier models off) with the solver's predictions, the correction and the "
         "quantile captured: conformity scores of the returned calibration frame, the correction (weighted, robust) and the final unit bounds are "
@@ -187,6 +188,72 @@ def run_job(job):
     return out
 
 
+def index_job(seed):
+    """the model called directly (as the repository's own tests do) on frames whose row labels are not 0..n-1: every unit's interval must be
+    the one it gets with canonical labels (its OWN bounds, widened and un-normalised with its OWN baseline)"""
+    from harness import run_impl
+
+    run_impl._imp()
+    import numpy as np
+
+    from elexmodel.models.NonparametricElectionModel import NonparametricElectionModel as NP
+
+    rng = random.Random(seed)
+    case = gen.gen_case(rng, pi_method="nonparametric", n_unexpected=0, outlier=False)
+    p = case["params"]
+    try:
+        rep, non, unx = run_impl.get_units(case)
+    except Exception as e:  # noqa: BLE001
+        return {"seed": seed, "ok": False, "exc": repr(e)[:150]}
+    settings = {"election_id": gen.ELECTION_ID, "office": case["office"], "geographic_unit_type": case["unit_type"], "district_election": case["office"] in ("H", "Y", "Z"),
+                "features": p["features"], "fixed_effects": p["fixed_effects"], "save_conformalization": False}
+    settings.update(p.get("model_parameters", {}))
+
+    def one(rep_, non_):
+        m = NP(settings)
+        out = {}
+        for e in p["estimands"]:
+            preds, _ = m.get_unit_predictions(rep_, non_, e, unexpected_units=unx)
+            non_ = non_.copy()
+            non_[f"pred_{e}"] = np.asarray(preds).flatten()
+            for a in p["prediction_intervals"]:
+                pi_ = m.get_unit_prediction_intervals(rep_, non_, a, e)
+                out[f"{e}@{a}"] = (np.asarray(pi_.lower, dtype=float).flatten(), np.asarray(pi_.upper, dtype=float).flatten())
+        return out
+
+    try:
+        A = one(rep.copy(), non.copy())
+    except Exception as e:  # noqa: BLE001
+        return {"seed": seed, "ok": False, "exc": repr(e)[:150]}
+    r2 = random.Random(seed + 1)
+    rb, nb = rep.copy(), non.copy()
+    lab = list(range(1000, 1000 + 3 * len(rb), 3))
+    r2.shuffle(lab)
+    rb.index = lab
+    lab = list(range(len(nb)))
+    r2.shuffle(lab)
+    nb.index = lab
+    res = {"seed": seed, "ok": True, "diff": None, "n_nonreporting": len(non), "estimands": p["estimands"], "levels": p["prediction_intervals"]}
+    try:
+        B = one(rb, nb)
+    except Exception as e:  # noqa: BLE001
+        res["diff"] = "the relabelled frames make the model raise " + repr(e)[:150]
+        return res
+    ids = list(non["geographic_unit_fips"])
+    for k in A:
+        for j, name in ((0, "lower"), (1, "upper")):
+            if A[k][j].shape != B[k][j].shape:
+                res["diff"] = f"{name} bound of {k}: {len(B[k][j])} values for {len(A[k][j])} units"
+                return res
+            bad = [i for i in range(len(ids)) if not (A[k][j][i] == B[k][j][i] or (A[k][j][i] != A[k][j][i] and B[k][j][i] != B[k][j][i]))]
+            if bad:
+                i = bad[0]
+                res["diff"] = (f"{name} bound of {k} for unit {ids[i]} is {B[k][j][i]} when the nonreporting frame carries shuffled row labels and {A[k][j][i]} with labels "
+                               f"0..n-1 ({len(bad)} of {len(ids)} units differ)")
+                return res
+    return res
+
+
 def run(chk):
     ok, rep = chk.proofs()
     chk.assumptions += ["lower / upper quantile-regression fits are oracle inputs (captured predictions)",
@@ -257,6 +324,13 @@ def run(chk):
                           {"kind": "run", "job": o["job"], "correspondence": "coq/Model/Conformal.v " + str(bad)}, {"kind": "model-diff"}, no_input=True)
     if n_ok < max(2, n // 4):
         chk.violation(f"only {n_ok} of {n} nonparametric runs completed", {"kind": "coverage"}, {"kind": "coverage"}, no_input=True)
+    # (c) model-level calls with non-canonical row labels
+    ij = core.pmap(index_job, [rng.randint(0, 2**31) for _ in range(8 if chk.tier == "quick" else 80)])
+    for o in ij:
+        chk.count({"index_labels": True, "ok": o["ok"], "est": o.get("estimands"), "levels": o.get("levels")}, nontrivial=bool(o["ok"] and o.get("n_nonreporting")),
+                  sample={"stream": "row labels", "estimands": o.get("estimands"), "levels": o.get("levels"), "nonreporting": o.get("n_nonreporting"), "identical": o.get("diff") is None})
+        if o["ok"] and o.get("diff"):
+            chk.violation(o["diff"], {"kind": "index", "seed": o["seed"]}, {"kind": "row-labels"})
     if not ok and not [v for v in chk.violations if not v["no_input"]]:
         chk.violation("proof obligations of C04 no longer check", {"theorem_file": "coq/Properties/C04.v", "log": rep.get("log_tail", "")[-1500:],
                                                                    "translator": chk.notes.get("translator_problems")}, {"kind": "proof-broken"}, no_input=True)
@@ -265,6 +339,10 @@ def run(chk):
 
 def replay(chk, payload):
     r = payload["replay"]
+    if r["kind"] == "index":
+        o = index_job(r["seed"])
+        print(json.dumps(o, indent=1, default=str))
+        return 1 if o.get("diff") else 0
     if r["kind"] == "direct":
         print(json.dumps(direct_job(tuple(r["job"])), indent=1))
     else:
